@@ -94,3 +94,17 @@ pub fn unsexp(x: &str) -> BooleanExpression {
     go(x.as_bytes(), &mut i)
 }
 
+
+/// characters whose LOW BYTE is one of the 11 reserved characters or a whitespace/control byte, in several
+/// planes; only valid scalars that are not whitespace (std's `char::is_whitespace`) are returned
+pub fn low_byte_chars() -> Vec<char> {
+    let mut lows: Vec<u32> = "!&|^=<>()?:".chars().map(|c| c as u32).collect();
+    lows.extend_from_slice(&[0x09, 0x0a, 0x0b, 0x0c, 0x0d, 0x20, 0x85, 0xa0, 0x00, 0x1c, 0x1f, 0x7f]);
+    let mut out = vec![];
+    for base in [0x100u32, 0x200, 0x1f00, 0xff00, 0x10000, 0x1f600, 0xe0100, 0x10ff00] {
+        for lb in &lows {
+            if let Some(c) = char::from_u32(base + lb) { if !c.is_whitespace() { out.push(c); } }
+        }
+    }
+    out
+}
